@@ -1,4 +1,4 @@
-Require Import OPC.gen.GenKinds OPC.Uni OPC.Names OPC.Codec OPC.Types OPC.Endpoint OPC.EndpointThm OPC.Parse OPC.ParseThm.
+Require Import OPC.gen.GenKinds OPC.Uni OPC.Names OPC.Codec OPC.Types OPC.Endpoint OPC.EndpointThm OPC.Parse OPC.ParseThm OPC.gen.GenStatus OPC.Status.
 From Coq Require Import NArith ZArith List Bool. Import ListNotations. Open Scope N_scope.
 
 (* a response with a documented status is decoded from the documented source with the documented schema's decoder *)
@@ -53,3 +53,20 @@ Theorem C04_supported_is_never_error : forall content c src,
   In c content -> response_source (fst c) = Some src -> response_plan content <> RError.
 Proof. exact supported_is_never_error. Qed.
 Print Assumptions C04_supported_is_never_error.
+
+(* which keys of the responses map become a documented status: HTTPStatus(int(key)) (shape regenerated from the parser's AST,
+   table regenerated from http.HTTPStatus) *)
+Theorem C04_status_conv_known : status_conv_known = true.
+Proof. reflexivity. Qed.
+Theorem C04_accepted_is_registered : forall s n, status_of_key s = KStatus n -> In n http_statuses.
+Proof. exact accepted_is_registered. Qed.
+Theorem C04_registered_three_digits : forall z, In z http_statuses -> status_of_key (dec3 z) = KStatus z.
+Proof. exact registered_three_digits. Qed.
+Theorem C04_lettered_key_rejected : forall s,
+  existsb (fun c => 127 <? c) (strip s) = false ->
+  existsb (fun c => plain_bad c && negb (c =? 43) && negb (c =? 45)) (strip s) = true ->
+  status_of_key s = KRejected.
+Proof. exact lettered_key_rejected. Qed.
+Print Assumptions C04_lettered_key_rejected.
+Theorem C04_status_key_alias_refuted : exists a b, a <> b /\ status_of_key a = KStatus 200%Z /\ status_of_key b = KStatus 200%Z.
+Proof. exact status_key_alias_refuted. Qed.
